@@ -27,7 +27,17 @@ class ReverseBrownian(brownian_base.BaseBrownian):
     def __call__(self, ta, tb=None, return_U=False, return_A=False):
         # Whether or not to negate the statistics depends on the return value of the adjoint SDE. Currently, the adjoint
         # returns negated drift and diffusion, so we don't negate here.
-        return self.base_brownian(-tb, -ta, return_U=return_U, return_A=return_A)
+        out = self.base_brownian(-tb, -ta, return_U=return_U, return_A=return_A)
+        if return_U or return_A:
+            # Reversing time keeps the increment, maps the space-time integral U to (tb - ta) * W - U and flips the
+            # sign of the Levy area.
+            W, *rest = out
+            if return_U and rest[0] is not None:
+                rest[0] = (tb - ta) * W - rest[0]
+            if return_A and rest[-1] is not None:
+                rest[-1] = -rest[-1]
+            out = (W, *rest)
+        return out
 
     def __repr__(self):
         return f"{self.__class__.__name__}(base_brownian={self.base_brownian})"
